@@ -254,11 +254,72 @@ func Run(r *fw.Run) {
 		r.Merge(l)
 	}
 
+	// resources: an opener that allows only two handles to be open at once and counts them. Large file sets
+	// (40, 300, 3000 files) must hash to the formula, every handle must be closed by the time Hash1 returns,
+	// and a set of n files needs no more simultaneously open handles than a set of 3
+	{
+		l := fw.NewLocal()
+		r.Bounds["bounded_opener"] = "at most 2 open handles; sets of 3, 40, 300, 3000 files"
+		for _, n := range []int{3, 40, 300, 3000} {
+			m := map[string]string{}
+			var files []string
+			for i := 0; i < n; i++ {
+				nm := fmt.Sprintf("dir%d/file%04d.go", i%7, i)
+				m[nm] = fmt.Sprintf("content %d\n", i)
+				files = append(files, nm)
+			}
+			open, peak := 0, 0
+			refused := false
+			opener := func(name string) (io.ReadCloser, error) {
+				if open >= 2 {
+					refused = true
+					return nil, fmt.Errorf("too many open files (the opener allows 2)")
+				}
+				open++
+				if open > peak {
+					peak = open
+				}
+				return &countingCloser{Reader: strings.NewReader(m[name]), closed: func() { open-- }}, nil
+			}
+			l.States++
+			l.Execs++
+			l.Transitions++
+			got, err := dirhash.Hash1(files, opener)
+			c := caseT{Kind: "resources", Mod: fmt.Sprint(n)}
+			switch {
+			case err != nil || refused:
+				r.Violation(fmt.Sprintf("resources:%d", n), fmt.Sprintf("Hash1 over %d files with an opener that allows two open handles failed: %v (peak %d)", n, err, peak), c)
+			case got != refHash(m):
+				r.Violation(fmt.Sprintf("resources:%d", n), fmt.Sprintf("Hash1 over %d files = %s, the documented formula gives %s", n, got, refHash(m)), c)
+			case open != 0:
+				r.Violation(fmt.Sprintf("resources:%d", n), fmt.Sprintf("Hash1 over %d files returned with %d handles still open", n, open), c)
+			default:
+				l.Nontrivial++
+				l.Outcomes["resources:ok"]++
+			}
+		}
+		r.Merge(l)
+	}
+
 	// call histories: the hash is a function of names and bytes only, not of earlier calls
 	historyPart(r)
 
 	// module archives
 	zipPart(r)
+}
+
+type countingCloser struct {
+	io.Reader
+	closed func()
+	done   bool
+}
+
+func (c *countingCloser) Close() error {
+	if !c.done {
+		c.done = true
+		c.closed()
+	}
+	return nil
 }
 
 type failReader struct {
